@@ -186,8 +186,13 @@ def assembler_emitters(ex) -> str:
         units, tprops = emitted_text_spec(p, a)
         EM_INFO[f"em_{k}"] = (p, a, units, prods)
         if units is not None:
+            eq = f"toks(final(out).code@.last()@) == {ex.tok_expr(units)}"
+            alt = xchg_swapped(p, units)
+            if alt is not None:
+                # XCHG of two registers means the same in either order: both renderings satisfy the property
+                eq = f"({eq} || toks(final(out).code@.last()@) == {ex.tok_expr(alt)})"
             contract += (f"        // the emitted line, as the interpreter's lexer sees it, is the source instruction in the interpreter's syntax\n"
-                         f"        toks(final(out).code@.last()@) == {ex.tok_expr(units)}, //# {','.join(tprops)} asm.emitted_line_is_the_source_instruction_in_the_interpreters_syntax\n")
+                         f"        {eq}, //# {','.join(tprops)} asm.emitted_line_is_the_source_instruction_in_the_interpreters_syntax\n")
             out.append(f"//@action {rel} {p.sig} as em_{k}\n//@contract\n//@fmttoks\n" + contract + "//@end\n")
         else:
             NO_TEXT_SPEC.append(p.sig)
@@ -285,6 +290,13 @@ def emitted_text_spec(p, a):
             units.append(("L", ","))
         units += g
     return units, props + ["C11"]
+
+
+def xchg_swapped(p, units):
+    """for `xchg reg, reg`: the same line with the two registers exchanged"""
+    if p.nt != "xchg" or len(units) != 4 or [u[0] for u in units] != ["L", "P", "L", "P"] or units[2] != ("L", ","):
+        return None
+    return [units[0], units[3], units[2], units[1]]
 
 
 # destination operand -> width, by the nonterminal that opens the operand list (names of the pinned grammar; an operand the table
